@@ -33,7 +33,7 @@ def main():
     out = {"seed": os.path.basename(d), "property": meta["property"]}
     try:
         repo = os.path.join(tmp, "repo")
-        shutil.copytree("/repo", repo, ignore=shutil.ignore_patterns(".git", "docs", "examples", "__pycache__", "*.egg-info"))
+        shutil.copytree("/repo", repo, ignore=shutil.ignore_patterns(".git", "docs", "__pycache__", "*.egg-info", "*.xls", "*.xml", "*.ipynb", "Machine_learning", "Genetic_algorithm"))
         r = subprocess.run(["patch", "-p1", "-i", os.path.join(d, "patch.diff")], cwd=repo, capture_output=True, text=True)
         if r.returncode != 0:
             out["error"] = "patch failed: " + r.stdout[-400:] + r.stderr[-400:]
